@@ -170,7 +170,7 @@ def sanitizer_summary(err):
     return "SANITIZER %s in %s" % (m.group(1), " <- ".join(frames[:3]) if frames else "?")
 
 
-def run_driver_resilient(exe, scenarios, timeout=600, env=None, threads=1, max_restarts=3000):
+def run_driver_resilient(exe, scenarios, timeout=600, env=None, threads=1, max_restarts=3000, max_crashes=40):
     """Runs all scenarios; when the driver dies (crash, sanitizer abort, hang) the scenario it died in is recorded
     and the run continues with the scenarios after it. Returns (records without Done lines, {id: stderr tail})."""
     recs, crashed = [], {}
@@ -186,7 +186,11 @@ def run_driver_resilient(exe, scenarios, timeout=600, env=None, threads=1, max_r
         crashed[bad.get("id")] = "rc=%s %s" % (rc, sanitizer_summary(err) or err[-1500:])
         todo = todo[len(done) + 1:]
         restarts += 1
-    if todo and restarts > max_restarts:
+        if len(crashed) >= max_crashes:
+            # the tree is broken badly enough: every crash is already a violation; do not spend hours restarting the driver
+            log("driver died %d times; the remaining %d scenarios are not executed" % (len(crashed), len(todo)))
+            break
+    if todo and restarts > max_restarts and len(crashed) < max_crashes:
         log("INFRA: driver restarted %d times, %d scenarios not executed" % (restarts, len(todo)))
         sys.exit(2)
     return recs, crashed
